@@ -34,6 +34,11 @@ def run(check):
     check.guarded("METHOD-NAME-KEPT", X.rule_method_name_kept)
     check.guarded("OPTCHAIN-SPINE", X.rule_optchain_spine)
     check.guarded("INPUT-UNTOUCHED", X.rule_input_untouched)
+    check.guarded("NOT-MODIFIED-UNTOUCHED", X.rule_not_modified_untouched)
+    # `tmp.x = (tmp = g(), ..)`: the target reference is evaluated before the right-hand side (TypeError on
+    # undefined, or a write to a stale object)
+    from . import c06 as _c06
+    check.guarded("TARGET-KEPT", _c06.rule_target_kept)
     # a file that is not instrumented must come back as it went in: the package hands back the caller's
     # text for `notmodified` results, which needs the metrics (and their status) on every result
     from . import c12 as _c12
